@@ -650,4 +650,31 @@ example : (∀ e ∈ evs, e.isLib = true) ∧ sqlImpl.Rep s1 ∧ Inv (sqlImpl.ab
 
 end C03LibEx
 
+/-! ## the two entries must not be mixed -/
+
+namespace C03MixEx
+open C03Ex (S)
+
+/-- X = an HTTP AddVersion for a never-seen client, L = a library AddVersion (no client creation) for the same client -/
+def evs : List Ev := [ .av ⟨1⟩ Uuid.nil ⟨#[1]⟩ ⟨10⟩ 0, .avLib ⟨1⟩ Uuid.nil ⟨#[2]⟩ ⟨11⟩ 0 ]
+/-- X runs its first two transactions (no such client; create) and stalls; L runs completely; X resumes -/
+def sch : List Nat := List.replicate 9 0 ++ List.replicate 12 1 ++ List.replicate 12 0
+
+def observed : List (Option Out) := (runSmall sqlImpl.B sqlImpl.mode (cinit S evs sqlImpl.init) sch).threads.map Th.resp
+
+/-- L is accepted on the empty record X's creation transaction left behind; X then conflicts with it -/
+example : observed = [some (.avConflict ⟨11⟩), some (.avOk ⟨11⟩ .high)] := by decide
+
+def seqOuts (order : List Nat) : List (Nat × Out) :=
+  order.zip (runH sqlImpl.B sqlImpl.mode S (evsOf evs order) sqlImpl.init).1
+
+/-- **Why `ReqMix` excludes request sets that mix the two entries.** In no one-at-a-time order is the library AddVersion
+    accepted: alone it meets no client (`noSuchClient`), after X it conflicts with X's version. So this execution of the
+    model is not linearizable, in any sense of "same response": the hypothesis "all-HTTP or all-library" of
+    `C03_linearizable_core` cannot be dropped. (The shipped server only ever runs the HTTP entry.) -/
+theorem C03_mix_not_linearizable :
+    ∀ order ∈ [[0, 1], [1, 0]], (1, Out.avOk ⟨11⟩ .high) ∉ seqOuts order := by decide
+
+end C03MixEx
+
 end Tcs
